@@ -61,6 +61,9 @@ func genC06(r *kernel.Rand, tier string) *kernel.Scenario {
 		// responder's Accept to return (first updates can overtake the
 		// responder's opening)
 		c["eager_open"] = 1
+		if r.Bool(0.5) {
+			c["yield_pct"], c["long_yields"] = 100, 1 // every lock boundary of the opening is a scheduling point
+		}
 	}
 	openers := make([]int, nch)
 	for k := 0; k < nch; k++ {
